@@ -228,3 +228,14 @@ EXPLANATION += (" Permutation look-up (E2-indirection): in AUC::get_score every 
                 "sorted score vector (shares a variable with the indices used on the argsorted copy) goes through label_idx; the first "
                 "counting pass over 0..n is order-independent and exempt.")
 TECHNIQUE += "; permutation-indirection provenance rule"
+
+
+# ------------------------------------------------------------------ generic: rows/cols (outer/inner) mix-up of locally allocated buffers
+_run_pre_dimension = run
+DIMENSION_FILES = ['src/algorithm/sort/quick_sort.rs', 'src/metrics/accuracy.rs', 'src/metrics/auc.rs', 'src/metrics/cluster_hcv.rs', 'src/metrics/cluster_helpers.rs', 'src/metrics/f1.rs', 'src/metrics/mean_absolute_error.rs', 'src/metrics/mean_squared_error.rs', 'src/metrics/precision.rs', 'src/metrics/r2.rs', 'src/metrics/recall.rs']
+
+
+def run(ck, prog):
+    _run_pre_dimension(ck, prog)
+    from sa import dimension
+    dimension.run_rule(ck, prog, set(DIMENSION_FILES))
